@@ -14,7 +14,7 @@ def c06():
         rule=("(a) ev_program: rapidcheck sequences of add/enable/disable/delete with generated event kind, flags (valid and unknown bits), "
               "filter flags (all four units, ABSTIME, unknown bits), data values around unit boundaries / 2^32 / random 62-bit, valid and "
               "invalid identifiers (also 2^32|fd and 2^63|fd), NULL callback; the arguments reaching timerfd_create/timerfd_settime/epoll_ctl are captured and compared "
-              "with an exact 128-bit integer conversion; plus an exhaustive unit-boundary table. (b) ev_fire: rapidcheck histories over 1-3 "
+              "with an exact 128-bit integer conversion, SO_RCVLOWAT of the registered socket is read back after every operation (only a READ registration with TP_FF_RW_LOWAT may change it); plus an exhaustive unit-boundary table. (b) ev_fire: rapidcheck histories over 1-3 "
               "channels (socketpair read, socketpair write, 1-12 ms timers) of add/enable/disable/delete (on the owning thread or from "
               "outside; also through tpt_ev_enable_args1(), which has no flags argument and must keep the registered ones), peer write, drain, peer close, half close, sleep, descriptor reuse (both ends closed without a delete and a new socket pair "
               "on the same number while the user record keeps its state), pipe write ends whose reader closes (error condition), timers named after the "
